@@ -27,6 +27,9 @@ pub enum Edit {
     ResizeKey(u16, u8),
     /// an extra witness by an unrelated key whose signature / key has the wrong length, inserted at a position
     AddWrongLength(u8, u16, u8, bool),
+    /// every witness re-made as a valid signature of the id the body would have if it were written with shortest-form
+    /// heads (the forge writes fee and change in fixed width, so that is another id than the transaction's)
+    SignShortestFormId,
 }
 
 #[derive(Debug, Clone, Serialize, Deserialize)]
@@ -48,6 +51,7 @@ fn edit() -> impl Strategy<Value = Edit> {
         1 => (any::<u16>(), prop_oneof![Just(0u8), Just(1), Just(63), Just(65), Just(32), Just(128), any::<u8>()]).prop_map(|(a, l)| Edit::ResizeSig(a, l)),
         1 => (any::<u16>(), prop_oneof![Just(0u8), Just(1), Just(31), Just(33), Just(64), any::<u8>()]).prop_map(|(a, l)| Edit::ResizeKey(a, l)),
         1 => (40u8..60, any::<u16>(), prop_oneof![Just(0u8), Just(31), Just(33), Just(63), Just(65)], any::<bool>()).prop_map(|(k, p, l, sig)| Edit::AddWrongLength(k, p, l, sig)),
+        1 => Just(Edit::SignShortestFormId),
     ]
 }
 
@@ -124,6 +128,19 @@ fn check(c: &Case, obs: &mut Obs) -> Result<(), Fail> {
                 if w.0.len() != *l as usize {
                     w.0.resize(*l as usize, 0x5a);
                     edited.push("resize-key");
+                }
+            }
+            Edit::SignShortestFormId => {
+                if let Ok(bn) = cx::read(&f.body) {
+                    let other = b256(&cx::write(&bn.minimal()));
+                    if other != id {
+                        for (pk, sg) in wl.iter_mut() {
+                            if let Some(kk) = (0u8..64).map(key).find(|k| k.pk.as_slice() == pk.as_slice()) {
+                                *sg = kk.sk.sign(&other).to_bytes().to_vec();
+                            }
+                        }
+                        edited.push("sign-shortest-form-id");
+                    }
                 }
             }
             Edit::AddWrongLength(k, p, l, sig) => {
